@@ -11,18 +11,13 @@ import (
 )
 
 // RaceChild is run inside the binary built with -race from the unmodified repository code: the
-// operations of one scenario run first one after the other, then all at once on real goroutines
-// (three rounds). Their outputs must be the sequential ones; the race detector watches.
+// operations of one scenario run all at once on real goroutines (three rounds; the first round is
+// the first use of everything the packages build lazily), then one after the other. The concurrent
+// outputs must be the sequential ones; the race detector watches.
 func RaceChild(seed uint64) int {
 	t := simkit.NewTape(seed)
 	sc := genScenario(t)
-	base := sc.ops(nil)
-	for _, o := range base {
-		if err := o.run(); err != nil {
-			fmt.Printf("error: %s: %v\n", o.name, err)
-			return 4
-		}
-	}
+	var rounds [][]*op
 	for round := 0; round < 3; round++ {
 		// Two instances of every operation: the same dialect's code runs on several goroutines at once.
 		ops := append(sc.ops(nil), sc.ops(nil)...)
@@ -41,6 +36,18 @@ func RaceChild(seed uint64) int {
 				fmt.Printf("mismatch: %s fails when run concurrently: %v\n", o.name, errs[i])
 				return 3
 			}
+		}
+		rounds = append(rounds, ops)
+	}
+	base := sc.ops(nil)
+	for _, o := range base {
+		if err := o.run(); err != nil {
+			fmt.Printf("error: %s: %v\n", o.name, err)
+			return 4
+		}
+	}
+	for _, ops := range rounds {
+		for i, o := range ops {
 			if string(o.out) != string(base[i%len(base)].out) {
 				fmt.Printf("mismatch: %s gives different bytes when run concurrently with unrelated operations\n", o.name)
 				return 3
